@@ -527,6 +527,32 @@ func c06directed(c *mon.Ctx) {
 		{"(if a == X then context else context).rec.k == b", func(a, b *model.Expr) *model.Expr {
 			return model.Bin(model.OEq, model.Access(model.Access(model.If(model.Bin(model.OEq, a, lx), ctx, ctx), "rec"), "k"), b)
 		}},
+		// one branch is a projection of a fully known record, the other of a record that holds
+		// an unknown (each branch must keep its own expression in the residual)
+		{"(if a == X then context.rec2 else context.rec).k == b", func(a, b *model.Expr) *model.Expr {
+			return model.Bin(model.OEq, model.Access(model.If(model.Bin(model.OEq, a, lx), model.Access(ctx, "rec2"), model.Access(ctx, "rec")), "k"), b)
+		}},
+		{"(if a == X then context.rec else context.rec2).k == b", func(a, b *model.Expr) *model.Expr {
+			return model.Bin(model.OEq, model.Access(model.If(model.Bin(model.OEq, a, lx), model.Access(ctx, "rec"), model.Access(ctx, "rec2")), "k"), b)
+		}},
+		{"(if a == X then context.set else context.recs).contains(b)", func(a, b *model.Expr) *model.Expr {
+			return model.Bin(model.OContains, model.If(model.Bin(model.OEq, a, lx), model.Access(ctx, "set"), model.Access(ctx, "recs")), b)
+		}},
+		// an unknown two container levels down, the outer container being a set, used as a whole
+		{"context.recs.contains({k: X, j: X}) (|| a == b)", func(a, b *model.Expr) *model.Expr {
+			whole := model.Bin(model.OContains, model.Access(ctx, "recs"), model.Lit(model.Rec("k", model.Ent("U", "a"), "j", model.Ent("U", "a"))))
+			return model.Bin(model.OOr, whole, model.Bin(model.OEq, a, b))
+		}},
+		{"context.recs.containsAny([{k: X, j: X}]) && a == b", func(a, b *model.Expr) *model.Expr {
+			whole := model.Bin(model.OContainsAny, model.Access(ctx, "recs"), model.SetE(model.Lit(model.Rec("k", model.Ent("U", "a"), "j", model.Ent("U", "a")))))
+			return model.Bin(model.OAnd, whole, model.Bin(model.OEq, a, b))
+		}},
+		{"context.sets.contains([X, b])", func(a, b *model.Expr) *model.Expr {
+			return model.Bin(model.OContains, model.Access(ctx, "sets"), model.SetE(lx, b))
+		}},
+		{"context.recs == [{k: X, j: X}, {k: Y, j: Y}]", func(a, b *model.Expr) *model.Expr {
+			return model.Bin(model.OEq, model.Access(ctx, "recs"), model.Lit(model.Set(model.Rec("k", model.Ent("U", "a"), "j", model.Ent("U", "a")), model.Rec("k", model.Ent("U", "b"), "j", model.Ent("U", "b")))))
+		}},
 		// both operands of the membership test are KNOWN (X is a child of Z in the store) while
 		// another conjunct is unknown: the known part is folded at partial-evaluation time
 		{"X is U in Z && a == b", func(a, b *model.Expr) *model.Expr {
@@ -584,7 +610,8 @@ func c06directed(c *mon.Ctx) {
 			body = d.sh.mk(b, a)
 		}
 		mp := &model.Policy{Permit: d.permit, Conds: []model.Cond{{When: d.when, Body: body}}}
-		base := &model.Env{P: X, A: X, R: X, Ctx: model.Rec("k", X, "j", X, "rec", model.Rec("k", X, "j", X), "set", model.Set(X, Y)), Store: map[string]*model.Entity{}}
+		base := &model.Env{P: X, A: X, R: X, Ctx: model.Rec("k", X, "j", X, "rec", model.Rec("k", X, "j", X), "set", model.Set(X, Y),
+			"rec2", model.Rec("k", Y, "j", Y), "recs", model.Set(model.Rec("k", X, "j", X), model.Rec("k", Y, "j", Y)), "sets", model.Set(model.Set(X, Y), model.Set(Y))), Store: map[string]*model.Entity{}}
 		base.Store[X.Key()] = &model.Entity{UID: X, Parents: []model.Val{Z}, Attrs: model.Rec(), Tags: model.Rec()}
 		base.Store[Y.Key()] = &model.Entity{UID: Y, Attrs: model.Rec(), Tags: model.Rec()}
 		t := &c06template{P: X, A: X, R: X, Ctx: base.Ctx, Vars: map[string][]model.Val{}, Ignored: map[string]bool{}}
@@ -649,7 +676,9 @@ func c06directed(c *mon.Ctx) {
 			setUnknown(b, "ub")
 		}
 		// the same unknowns also sit one level down, inside a record and a set of the context
-		t.Ctx = model.Rec("k", ctxK, "j", ctxJ, "rec", model.Rec("k", ctxK, "j", ctxJ), "set", model.Set(ctxK, Y))
+		// ... and (the unknown only) two levels down, inside records / sets that are members of a set
+		t.Ctx = model.Rec("k", ctxK, "j", ctxJ, "rec", model.Rec("k", ctxK, "j", ctxJ), "set", model.Set(ctxK, Y),
+			"rec2", model.Rec("k", Y, "j", Y), "recs", model.Set(model.Rec("k", ctxK, "j", X), model.Rec("k", Y, "j", Y)), "sets", model.Set(model.Set(ctxK, Y), model.Set(Y)))
 		var m gen.Mentions
 		gen.CollectPolicy(&m, mp)
 		m.Ents = append(m.Ents, ents...)
